@@ -408,6 +408,15 @@ class DeleteComposableTemplateParamSource(DeleteTemplateParamSource):
         super().__init__(track, params, track.composable_templates, **kwargs)
 
 
+def _retry_settings(params):
+    """
+    :return: The retry settings that have been specified for a (retryable) operation. Parameter sources that build their parameters
+             from scratch need to pass them on; otherwise the runner never gets to see them.
+    """
+    retry_settings = ["retries", "retry-until-success", "retry-wait-period", "retry-on-timeout", "retry-on-error"]
+    return {k: params[k] for k in retry_settings if k in params}
+
+
 class DeleteComponentTemplateParamSource(ParamSource):
     def __init__(self, track, params, **kwargs):
         super().__init__(track, params, **kwargs)
@@ -427,11 +436,15 @@ class DeleteComponentTemplateParamSource(ParamSource):
                 raise exceptions.InvalidSyntax(f"Please set the property 'template' for the {params.get('operation-type')} operation.")
 
     def params(self):
-        return {
-            "templates": self.template_definitions,
-            "only-if-exists": self.only_if_exists,
-            "request-params": self.request_params,
-        }
+        p = _retry_settings(self._params)
+        p.update(
+            {
+                "templates": self.template_definitions,
+                "only-if-exists": self.only_if_exists,
+                "request-params": self.request_params,
+            }
+        )
+        return p
 
 
 class CreateTemplateParamSource(ABC, ParamSource):
@@ -480,10 +493,14 @@ class CreateTemplateParamSource(ABC, ParamSource):
                 dct[k] = merge_dct[k]
 
     def params(self):
-        return {
-            "templates": self.template_definitions,
-            "request-params": self.request_params,
-        }
+        p = _retry_settings(self._params)
+        p.update(
+            {
+                "templates": self.template_definitions,
+                "request-params": self.request_params,
+            }
+        )
+        return p
 
 
 class CreateComposableTemplateParamSource(CreateTemplateParamSource):
